@@ -704,6 +704,19 @@ fn run_case(c: &mut Ctx, form: &Form, v: &Val, sample: bool) {
         }
     };
     let got = show_parse(parsed.as_ref().unwrap());
+    // the specification (Spec/UnambiguousSpec.lean) against the implementation: wherever it predicts a
+    // result for this format and value, the prediction must be what the crate returned
+    c.op(&format!("pf.sp {} {} {} | {}", target, hex(fmt.as_bytes()), v.tokens(), got), "agree");
+    // non-vacuity of that validation: on the plainly separated classes the specification must predict
+    let plain = match v {
+        Val::D(_) => form.date.as_ref().map_or(false, |d| matches!(d.class, "calendar" | "ordinal" | "week-sun" | "week-mon" | "iso-week" | "composite")),
+        Val::T(_) => form.time.as_ref().map_or(false, |t| matches!(t.class, "hm" | "composite")),
+        _ => false,
+    };
+    if plain && exp.is_some() {
+        c.op(&format!("pf.spq {} {} {}", target, hex(fmt.as_bytes()), v.tokens()), "pred");
+        c.count("spec:prediction-required");
+    }
     match &exp {
         Some(e) => {
             c.count(&format!("rt:{}:expressible", target));
